@@ -278,12 +278,14 @@ def dictSet {β} (d : List (List Char × β)) (k : List Char) (v : β) : List (L
   | [] => [(k, v)]
   | (k', v') :: r => if k' == k then (k, v) :: r else (k', v') :: dictSet r k v
 
-/-- the per-method part of `enforce_valid_library_settings`; `allMethods` = keys of `API.all_methods` -/
+/-- the per-method part of `enforce_valid_library_settings`; `allMethods` = keys of `API.all_methods`.
+Since the `fix:` commit a25ff42 the version must be followed by a dot
+(`method_name.startswith(library_settings.version + ".")`). -/
 def methodErrors (allMethods : List (List Char)) (version : List Char) (methods : List (List Char)) :
     List (List Char × MethodErr) :=
   methods.foldl (fun d m =>
     if m ∉ allMethods then dictSet d m .missing
-    else if !(version.isPrefixOf m) then dictSet d m .mismatch
+    else if !((version ++ ['.']).isPrefixOf m) then dictSet d m .mismatch
     else d) []
 
 /-- the loop of `enforce_valid_library_settings`: (versions_seen, all_errors) -/
